@@ -51,7 +51,7 @@ func checkC07(c *Ctx, r *Result, tier string) {
 		}
 	}
 	sort.Slice(fns, func(i, j int) bool { return c.FuncKey(fns[i]) < c.FuncKey(fns[j]) })
-	r.Floor("R07a-functions", len(fns), 20)
+	r.Floor("R07a-functions", len(fns), 15)
 	allocOnly := map[*ssa.Function]bool{}
 	for _, fn := range c.ModFuncs() {
 		if c.PkgOf(fn) != "parser" || fn.Signature.Results().Len() != 1 {
